@@ -15,6 +15,39 @@ CHECKS = {
          "outside the property's alphabet and not modelled. No axioms (Print Assumptions: closed).",
     technique="Coq proof (simulation to zipper / two-sided list) + extracted-model differential correspondence",
     design="5/C18"),
+ "C13": dict(
+    text="Proof: expand_tiles, expand_collapse_wf, wrap_width, wrap_keeps_nonspace, wrap_keeps_breaks, wrap_word_intact, "
+         "dumb_wrap_shape, chunk_spec, pad_shape, indent_shape, snip_shape, snip_lines are Coq theorems over ALL cell lists and all "
+         "widths >= 1 (invariants over the fold that models Wrap; the width-0 loss of content is proved as a refutation). Tie to the "
+         "code: Ansi.v (extracted) and package ansi run on the same styled/hostile texts; oracles wrap_ok/dumb_ok/pad_ok/snip_ok "
+         "(Oracles.v) decide the property on the implementation's own output.",
+    note="Lengths count cells (runes), as the code does. Regex of ansi.expand modelled as a deterministic scanner (argument in Ansi.v, "
+         "differentially tested incl. hostile ESC fragments). unicode.IsSpace/IsControl tables compared exhaustively with Go each run.",
+    technique="Coq proof (fold invariants over the Wrap state machine) + extracted-model differential correspondence + verified oracles",
+    design="5/C13"),
+ "C14": dict(
+    text="Proof: display_wf, apply_cells_wf, apply_attrs, neutral_wf, expand_plain, plain_wf: for all well-formed styled cells a "
+         "terminal SGR state machine shows every rune with exactly the applied attributes and is neutral at every line end. Tie: the "
+         "extracted state machine is run on the implementation's output for random style terms + layout pipelines.",
+    note="A parameter string is one opaque attribute; the terminal's own SGR interpretation beyond Term.v is outside.",
+    technique="Coq proof (terminal SGR state machine over well-formed cells) + oracle run on implementation output",
+    design="5/C14"),
+ "C16": dict(
+    text="Proof: center_height (exactly h lines for all texts and h >= 1), centered_position, center_tall, replace_last_line_spec, "
+         "set_length_len/ok/one_line. Tie: exhaustive geometry enumeration (4116) + random texts against ansi.CenterVertically, "
+         "ReplaceLastLine, SetLength; output must equal the model (the spec determines it uniquely).",
+    note="UI frame composition (ui.view) is covered once the UI model lands; this check covers the ansi layer that decides the height.",
+    technique="Coq proof (line-count arithmetic over split/join) + exhaustive small-scope differential correspondence",
+    design="5/C16"),
+ "C17": dict(
+    text="Proof: 19 theorems giving an iff-characterisation of every accessor outcome (Present/Absent/Bad) over all JSON values, "
+         "including get_number_spec over IEEE-754 bit patterns (f64_to_int_spec: accepted iff the double is exactly that integer, "
+         "0 <= n < 2^64), list promotion, media-type scanner soundness+completeness, markup dispatch. Tie: documents decoded by the "
+         "real encoding/json, all nine accessors compared with the extracted model.",
+    note="time.Parse(RFC3339) and url.Parse are oracles (universally quantified in the theorems; the harness asks the real library). "
+         "encoding/json decoding is the library's; the harness re-encodes what Go decoded and compares it with the model's input.",
+    technique="Coq proof (case analysis + exact dyadic arithmetic on float bits) + extracted-model differential correspondence",
+    design="5/C17"),
 }
 PENDING_REASON = "check not built yet in this session (work in progress; planned in DESIGN.md section 5)"
 
